@@ -1,0 +1,12 @@
+//go:build verif
+
+// Machine-checked contracts for govc (see /verif/DESIGN.md). Comments only;
+// compiled only with the build tag "verif".
+
+package httpx
+
+// the peer address of a connection, as a function of its host:port form (C15)
+//@ func IPFromHostPort
+//@   props C15
+//@   pure
+//@   defines peerIP(hp)
